@@ -9,6 +9,8 @@ import (
 	"strings"
 
 	"golang.org/x/tools/go/ssa"
+
+	"verif/tool/absint"
 )
 
 // The renderers of C14 and C15 are analysed with the xbuf.B methods as atomic sinks
@@ -751,6 +753,20 @@ func checkXbuf(ctx *Ctx) {
 		pos := ctx.Prog.Pos(f.Pos())
 		sites, reason := xbufDescribe(f)
 		if reason != "" {
+			// the fixed-arity methods can also be decided on what they append when
+			// interpreted (a shared digit helper, a loop over a constant count)
+			if _, fixed := xbufFixed[n]; fixed {
+				if why := xbufInterpret(ctx, f, n, tB.Type()); why == "" {
+					R.Pass("xbuf-append", "xbuf.B."+n, pos, "interpreted: appends only, "+xbufFixed[n])
+					R.Pass("xbuf-meaning", "xbuf.B."+n, pos, "interpreted: "+xbufFixed[n])
+					continue
+				} else {
+					reason += "; interpreted: " + why
+				}
+			} else if xbufMeaning[n] == nil && !f.Object().Exported() {
+				// an unexported helper is judged through the exported methods that use it
+				continue
+			}
 			R.Fail("xbuf-append", "xbuf.B."+n, pos, "not in append-only, panic-free form: "+reason)
 			continue
 		}
@@ -774,4 +790,99 @@ func checkXbuf(ctx *Ctx) {
 	}
 	R.Floor("xbuf-methods", 4)
 	R.Count("xbuf-methods", len(names))
+}
+
+
+// xbufFixed: methods appending a fixed number of bytes determined by one argument.
+var xbufFixed = map[string]string{
+	"C":   "the byte given",
+	"X02": "2 hex digits of the value, most significant first",
+	"X04": "4 hex digits of the value, most significant first",
+	"X06": "6 hex digits of the value, most significant first",
+}
+
+// xbufInterpret decides a fixed-arity xbuf method by interpreting it (loops unrolled):
+// the receiver's slice must end up as the result of a chain of appends starting from
+// its entry value, and the appended bytes must be the prescribed ones, in order.
+func xbufInterpret(ctx *Ctx, f *ssa.Function, name string, bT types.Type) string {
+	if len(f.Params) != 2 {
+		return "unexpected signature"
+	}
+	w, sg, ok := absint.IntType(f.Params[1].Type())
+	if !ok {
+		return "argument is not an integer"
+	}
+	ip := absint.New()
+	ip.UnrollLoops = true
+	recv := &absint.Ptr{Nil: absint.TriF, Obj: ip.SymObj("buf", types.NewPointer(bT)), T: bT}
+	d := absint.NewSym(w, ip.In.Atom("p1", w, ^uint64(0)>>(64-uint(w))), sg)
+	forked := false
+	ip.Hooks.Branch = func(*absint.Interp, *absint.Bool, *ssa.If) { forked = true }
+	res, out := ip.Call(f, []absint.Val{recv, d}, nil, &absint.State{Heap: absint.NewHeap(nil)})
+	if out == nil {
+		return "no returning path"
+	}
+	for _, m := range ip.Imprec {
+		return "not interpretable: " + m
+	}
+	if forked {
+		return "a branch depends on the argument"
+	}
+	if p, ok := res.(*absint.Ptr); !ok || p.Obj != recv.Obj {
+		return "does not return its receiver"
+	}
+	var elems []absint.Val
+	for _, ev := range ip.Events {
+		switch ev.Kind {
+		case "append":
+			if len(ev.Args) < 2 {
+				return "an append whose operands are not listed"
+			}
+			if _, isSlice := ev.Args[1].(*absint.Slice); isSlice && len(ev.Args) == 2 {
+				return "appends a slice of unknown content"
+			}
+			elems = append(elems, ev.Args[1:]...)
+		case "panic", "index-range", "fatal", "ext-call", "copy", "dyn-store":
+			return "has an effect other than appending: " + ev.Kind
+		}
+	}
+	o := ip.Ops
+	var want []string
+	switch name {
+	case "C":
+		want = []string{d.Lin.Key()}
+	default:
+		n := map[string]int{"X02": 2, "X04": 4, "X06": 6}[name]
+		for k := n - 1; k >= 0; k-- {
+			idx := o.And(o.Shr(d, absint.NewConst(w, uint64(4*k), false), false), absint.NewConst(w, 0xF, false))
+			want = append(want, fmt.Sprintf("strindex(%q,%s)", xbufHexDigits, idx.Lin.Key()))
+		}
+	}
+	if len(elems) != len(want) {
+		return fmt.Sprintf("appends %d bytes, want %d", len(elems), len(want))
+	}
+	for i, e := range elems {
+		iv, ok := e.(*absint.Int)
+		if !ok {
+			return "an appended value is not a byte"
+		}
+		got := iv.Lin.Key()
+		if strings.HasPrefix(want[i], "strindex(") {
+			if len(iv.Lin.T) != 1 || iv.Lin.C != 0 || iv.Lin.T[0].K != 1 || !strings.HasPrefix(iv.Lin.T[0].A.Key, "strindex(") {
+				return fmt.Sprintf("byte %d is %s, not a hex digit", i, trunc(got))
+			}
+			// compare the digit selector modulo its own width (the helper may widen the value first)
+			a := iv.Lin.T[0].A
+			gotIdx := o.Rebuild(a.Args[0], nil)
+			wantIdx := o.And(o.Shr(d, absint.NewConst(w, uint64(4*(len(want)-1-i)), false), false), absint.NewConst(w, 0xF, false))
+			if a.Op != "strindex:"+xbufHexDigits || o.Convert(gotIdx, 8, false, false).Lin.Key() != o.Convert(wantIdx, 8, false, false).Lin.Key() {
+				return fmt.Sprintf("byte %d is %s, want digit %d of the value", i, trunc(a.Key), len(want)-1-i)
+			}
+			continue
+		}
+		if got != "0+"+want[i] && got != want[i] {
+			return fmt.Sprintf("byte %d is %s, want %s", i, trunc(got), want[i])
+		}
+	}
+	return ""
 }
